@@ -265,3 +265,15 @@ Definition view_equiv (o : option dentry) (e : option entry) : Prop :=
 (* p is listed on both sides with the same identity key *)
 Definition unchanged (d : differ) (A B : list entry) (p : bytes) : Prop :=
   exists a b, In a (map fst A) /\ In b (map fst B) /\ st_path a = p /\ st_path b = p /\ same_file d a b = true.
+
+(* a path of the source that is new, or changed other than directory-over-directory, and is
+   not a hard link: the writer creates a new inode for it *)
+Definition fresh_target (d : differ) (A B : list entry) (p : bytes) : Prop :=
+  exists b, In b (map fst B) /\ st_path b = p /\ is_hardlink b = false /\
+    (notin (map fst A) p \/
+     exists a, In a (map fst A) /\ st_path a = p /\ same_file d a b = false /\
+               (st_is_dir a && st_is_dir b) = false).
+(* the destination holds at p the source's stat as sent, under an inode class >= n0 *)
+Definition fresh_entry (B : list entry) (n0 : N) (p : bytes) (o : option dentry) : Prop :=
+  exists e b, o = Some e /\ In b (map fst B) /\ st_path b = p /\ de_stat e = b /\ n0 <= de_ino e.
+
